@@ -1,22 +1,190 @@
-import Juniper.Proofs.TreeCmp
+import Juniper.Proofs.TreeIterProps
 /-!
 # C02 — tree iterators stay correct while the tree is modified between Next calls (property theorems)
+
+The model iterator (cursor = node identity, index, remembered key, generation; `lost()` and the re-seek
+regenerated from `btree.go`) is shown to refine the *resume-key iterator* of the specification for every
+interleaving of `Put`/`Delete` with `Next` calls of any number of live forward and reverse iterators
+(`iter_refines_resume`); the property's clauses are then theorems about the specification iterator.
+Helper lemmas are in `Juniper/Proofs/Tree*.lean`.
 -/
 namespace Juniper.Props.C02
 open Juniper.Gen.Tree Juniper.Model.BTree Juniper.Proofs.Tree
 
 variable {K V : Type}
 
-/-- "once it reports exhaustion it keeps doing so", far-bound half: after the `While` wrapper has seen
-one key beyond the far bound it never calls the cursor again and answers `end` on whatever tree. -/
+/-- "once it reports exhaustion it keeps doing so", far-bound half in the model: after the `While` wrapper has
+seen one key beyond the far bound it never calls the cursor again and answers `end` on whatever tree. -/
 theorem while_cutoff_sticky (cmp : K → K → Int) (t : Tree K V) (it : Iter K) (op : CmpOp) (key : K)
     (hs : it.stop = some (op, key)) (hd : it.done = true) :
     iterNext cmp t it = (it, none) := by
   unfold iterNext
   simp [hs, hd, whileChecksDone]
 
-/-- the cut-off is set exactly when the predicate fails (`iter.done = true` is present in the source). -/
-theorem while_sets_done : whileSticky = true ∧ whileStops false = true ∧ whileStops true = false ∧
-    whileChecksDone true = true ∧ whileChecksDone false = false := by decide
+/-- the cut-off is set exactly when the predicate fails (`iter.done = true` is present in the source); a lost
+forward iterator re-seeks `>=`, a lost backward iterator `<=`, a merged-away node is marked (`right.n = 0`),
+and `Put`/`Delete` bump the generation when the structure changes. -/
+theorem iterator_facts : whileSticky = true ∧ whileStops false = true ∧ whileStops true = false ∧
+    whileChecksDone true = true ∧ whileChecksDone false = false ∧ iterReseeks = true ∧ iterReadsThenSteps = true ∧
+    cursorLostReseeks = true ∧ mergeZeroesRight = true ∧ putBumpsGen = true ∧ deleteBumpsGen = true ∧
+    seekSetsGen = true ∧ seekFirstSetsGen = true ∧ seekLastSetsGen = true := by decide
+
+/-- A cursor parked in a node that has left the tree (merged away: `right.n = 0`; collapsed root: `n = 0`) and whose
+generation is stale considers itself lost — so it re-seeks by key instead of reading the dead node. -/
+theorem retired_nodes_are_lost (cmp : K → K → Int) (t : Tree K V) (c : Cursor K) (p : Pos K) (hp : c.pos = some p)
+    (hg : c.gen ≠ t.gen) (hf : findNode p.id t.root = none) (_hz : mergeZeroesRight = true := by decide) :
+    lostAt cmp t c = true := by
+  have hg' : ¬ ((c.gen : Int) = (t.gen : Int)) := by omega
+  simp [lostAt, hp, hf, lost, hg']
+
+/-- A cursor that does not consider itself lost (the regenerated `lost()` expression is false) is parked on an
+entry of the current tree whose key is equivalent to the key it remembers. -/
+theorem cursor_valid_of_not_lost (cmp : K → K → Int) (hs : StrictWeak cmp) {t : Tree K V} {c : Cursor K} (hc : CInv t c)
+    {p : Pos K} (hp : c.pos = some p) (hl : lostAt cmp t c = false) :
+    ∃ y up e, At t.root p y up e ∧ cmp p.k e.1 = 0 :=
+  parked_of_not_lost hs hc hp hl
+
+/-- Navigation: from a valid position `cursor.Next` moves to the in-order successor (staying in the leaf, descending
+to the leftmost leaf of the next child, or climbing to the first ancestor with an entry to the right) and runs off the
+end exactly after the last entry; `cursor.Prev` symmetrically. `befOf ++ e :: aftOf` is the tree's in-order list split
+at the cursor's entry `e`. -/
+theorem cursor_next_is_successor {root : Node K V} {h : Nat} (t : Tree K V) (ht : t.root = root) (hb : Bal h root)
+    (hone : ∀ i, cnt i root ≤ 1) {p : Pos K} {y : Node K V} {up : List (Node K V × Nat)} {e : K × V}
+    (ha : At root p y up e) :
+    toList root = befOf up y p.i ++ e :: aftOf up y p.i ∧
+    (aftOf up y p.i = [] → nextCore t p = none) ∧
+    (∀ e' A', aftOf up y p.i = e' :: A' → ∃ p' y' up', nextCore t p = some p' ∧ At root p' y' up' e' ∧ p'.k = e'.1 ∧
+      befOf up' y' p'.i = befOf up y p.i ++ [e] ∧ aftOf up' y' p'.i = A') :=
+  ⟨at_toList hb ha, (next_step t ht hb hone ha).1, (next_step t ht hb hone ha).2⟩
+
+theorem cursor_prev_is_predecessor {root : Node K V} {h : Nat} (t : Tree K V) (ht : t.root = root) (hb : Bal h root)
+    (hone : ∀ i, cnt i root ≤ 1) {p : Pos K} {y : Node K V} {up : List (Node K V × Nat)} {e : K × V}
+    (ha : At root p y up e) :
+    (befOf up y p.i = [] → prevCore t p = none) ∧
+    (∀ B' e', befOf up y p.i = B' ++ [e'] → ∃ p' y' up', prevCore t p = some p' ∧ At root p' y' up' e' ∧ p'.k = e'.1 ∧
+      befOf up' y' p'.i = B' ∧ aftOf up' y' p'.i = e :: aftOf up y p.i) :=
+  prev_step t ht hb hone ha
+
+/-- The four seeks: `SeekFirstGreaterOrEqual`/`SeekFirstGreater` park on the least entry `≥ k` / `> k` (the rest of the
+contents from there on is what a forward iteration yields), `SeekLastLessOrEqual`/`SeekLastLess` on the greatest entry
+`≤ k` / `< k`; the comparison operators are the regenerated ones. -/
+theorem seeks_least_greatest (cmp : K → K → Int) (hs : StrictWeak cmp) {t : Tree K V} (hi : Inv cmp t) (c0 : Cursor K) (k : K) :
+    Fwd t (seekFirstGreaterOrEqual cmp t c0 k) ((toList t.root).dropWhile fun x => decide (0 < cmp k x.1)) ∧
+    Fwd t (seekFirstGreater cmp t c0 k) ((toList t.root).dropWhile fun x => decide (0 ≤ cmp k x.1)) ∧
+    Bwd t (seekLastLessOrEqual cmp t c0 k) ((toList t.root).reverse.dropWhile fun x => decide (cmp k x.1 < 0)) ∧
+    Bwd t (seekLastLess cmp t c0 k) ((toList t.root).reverse.dropWhile fun x => decide (cmp k x.1 ≤ 0)) := by
+  refine ⟨?_, ?_, ?_, ?_⟩
+  · have := seekFwd_spec hs hi seekFirstGreaterOrEqualStep (by intro c h; simp [seekFirstGreaterOrEqualStep, h])
+      (by intro c h; simp [seekFirstGreaterOrEqualStep]; omega) c0 k
+    simpa [seekFirstGreaterOrEqualStep, seekFirstGreaterOrEqual] using this
+  · have := seekFwd_spec hs hi seekFirstGreaterStep (by intro c h; simp [seekFirstGreaterStep]; omega)
+      (by intro c h; simp [seekFirstGreaterStep]; omega) c0 k
+    simpa [seekFirstGreaterStep, seekFirstGreater] using this
+  · have := seekBwd_spec hs hi seekLastLessOrEqualStep (by intro c h; simp [seekLastLessOrEqualStep, h])
+      (by intro c h; simp [seekLastLessOrEqualStep]; omega) c0 k
+    simpa [seekLastLessOrEqualStep, seekLastLessOrEqual] using this
+  · have := seekBwd_spec hs hi seekLastLessStep (by intro c h; simp [seekLastLessStep]; omega)
+      (by intro c h; simp [seekLastLessStep]; omega) c0 k
+    simpa [seekLastLessStep, seekLastLess] using this
+
+/-- **Refinement.** For every script that interleaves `Put`/`Delete` (of any keys) with the creation of
+`Range`/`RangeReverse` iterators (any bounds) and `Next` calls on any number of simultaneously live
+iterators, starting from any reachable tree with any set of live iterators: the model runs to completion
+(no nil dereference — "never panics"; every `Next` is a terminating function: "never spins"), and every
+`Next` returns what the specification's resume-key iterator returns on the *current* contents — an
+equivalent key with exactly its current value, or `end` — while the simulation relation (tree invariant,
+contents, per-iterator cursor invariant) is maintained. Whether the mutation splits, merges, rotates or
+unlinks the node an iterator is parked in, collapses the root or empties the tree is immaterial. -/
+theorem iter_refines_resume (cmp : K → K → Int) (hs : StrictWeak cmp) (sts : List (Step K V))
+    (m : MSt K V) (s : SSt K V) (h : Sim cmp m s) :
+    ∃ m' os, mrun cmp m sts = some (m', os) ∧ Sim cmp m' (srun cmp s sts).1 ∧ ObsAll cmp os (srun cmp s sts).2 :=
+  sim_run hs sts m s h
+
+/-- the empty tree without iterators is related to the empty map -/
+theorem sim_init (cmp : K → K → Int) :
+    Sim cmp (⟨Tree.empty, fun _ => none⟩ : MSt K V) ⟨[], fun _ => none⟩ :=
+  ⟨inv_empty cmp, by simp [Tree.empty], fun _ => rfl, fun _ _ h => by cases h⟩
+
+/-- non-vacuity: from the empty tree every script is covered. -/
+example (cmp : K → K → Int) (hs : StrictWeak cmp) (sts : List (Step K V)) :
+    ∃ m' os, mrun cmp (⟨Tree.empty, fun _ => none⟩ : MSt K V) sts = some (m', os) ∧
+      ObsAll cmp os (srun cmp ⟨[], fun _ => none⟩ sts).2 := by
+  obtain ⟨m', os, h1, _, h3⟩ := iter_refines_resume cmp hs sts _ _ (sim_init cmp)
+  exact ⟨m', os, h1, h3⟩
+
+/-- "it never panics or spins": the model's `Next` is a total function without a panic outcome, and on every
+reachable state (simulation relation) no step of any script dereferences a nil pointer. -/
+theorem iter_total (cmp : K → K → Int) (hs : StrictWeak cmp) (sts : List (Step K V))
+    (m : MSt K V) (s : SSt K V) (h : Sim cmp m s) : (mrun cmp m sts).isSome = true := by
+  obtain ⟨m', os, h1, _, _⟩ := sim_run hs sts m s h
+  simp [h1]
+
+/-- "its keys are strictly monotone in its direction": two consecutive yielding `Next` calls, on whatever
+(sorted) contents the map had at the two moments. -/
+theorem iter_strict_monotone (cmp : K → K → Int) (hs : StrictWeak cmp) {L1 L2 : List (K × V)}
+    (h1 : Sorted cmp L1) (h2 : Sorted cmp L2) {it it1 it2 : SIter K} {e1 e2 : K × V}
+    (hn1 : snext cmp L1 it = (it1, some e1)) (hn2 : snext cmp L2 it1 = (it2, some e2)) :
+    dcmp cmp it.fwd e1.1 e2.1 < 0 :=
+  snext_strict_monotone hs h1 h2 hn1 hn2
+
+/-- "… and inside its bounds": a fresh `Range`/`RangeReverse` iterator starts inside its near bound, every `Next`
+keeps it there, and every yielded key is inside the near bound and satisfies the far-bound (`While`) predicate. -/
+theorem iter_in_bounds (cmp : K → K → Int) (hs : StrictWeak cmp) {L : List (K × V)} (hL : Sorted cmp L) (lo hi : Bound K)
+    {it it' : SIter K} {out : Option (K × V)}
+    (hinv : ∀ k, it.resume = some k → nearFn cmp it.fwd lo hi k = true) (h : snext cmp L it = (it', out)) :
+    (∀ e, out = some e → nearFn cmp it.fwd lo hi e.1 = true ∧ keepFn cmp it.stop e.1 = true) ∧
+    (it'.fwd = it.fwd ∧ ∀ k, it'.resume = some k → nearFn cmp it'.fwd lo hi k = true) := by
+  obtain ⟨a, b⟩ := snext_near hs hL lo hi hinv h
+  refine ⟨fun e he => ⟨a e he, ?_⟩, b⟩
+  subst he
+  exact (snext_yield_present hs hL h).2
+
+/-- "every key it yields is present at that moment and paired with its current value". -/
+theorem iter_yields_present_current_value (cmp : K → K → Int) (hs : StrictWeak cmp) {L : List (K × V)}
+    (hL : Sorted cmp L) {it it' : SIter K} {e : K × V} (h : snext cmp L it = (it', some e)) : e ∈ L :=
+  (snext_yield_present hs hL h).1
+
+/-- "once it reports exhaustion it keeps doing so". -/
+theorem iter_exhaustion_sticky (cmp : K → K → Int) (hs : StrictWeak cmp) {L : List (K × V)} (hL : Sorted cmp L)
+    {it it' : SIter K} (h : snext cmp L it = (it', none)) (L' : List (K × V)) : snext cmp L' it' = (it', none) :=
+  snext_exhaustion_sticky hs hL h L'
+
+/-- "No key that stays in the collection from the iterator's creation until the iterator has moved past it is
+skipped": a fresh iterator owes every entry inside its near bound (`smk_owes`), and while an owed entry `x` is in the
+map and inside the far bound, `Next` neither ends nor yields beyond `x`: it yields `x` or a key before `x`, still
+owing `x`. -/
+theorem iter_no_skip_of_persistent_keys (cmp : K → K → Int) (hs : StrictWeak cmp) :
+    (∀ {L : List (K × V)} (_ : Sorted cmp L) (fwd : Bool) (lo hi : Bound K) {x : K × V}, x ∈ L →
+        nearFn cmp fwd lo hi x.1 = true → Owes cmp (smk cmp L fwd lo hi) x.1) ∧
+    (∀ {L : List (K × V)} (_ : Sorted cmp L) {it : SIter K} {x : K × V}, x ∈ L → Owes cmp it x.1 →
+        keepFn cmp it.stop x.1 = true →
+        (∀ a b, dcmp cmp it.fwd a b < 0 → keepFn cmp it.stop b = true → keepFn cmp it.stop a = true) →
+        (∃ it', snext cmp L it = (it', some x)) ∨
+        (∃ it' e, snext cmp L it = (it', some e) ∧ dcmp cmp it.fwd e.1 x.1 < 0 ∧ Owes cmp it' x.1 ∧
+          it'.fwd = it.fwd ∧ it'.stop = it.stop)) ∧
+    (∀ (fwd : Bool) (lo hi : Bound K) a b, dcmp cmp fwd a b < 0 → keepFn cmp (stopOf fwd lo hi) b = true →
+        keepFn cmp (stopOf fwd lo hi) a = true) :=
+  ⟨fun hL fwd lo hi _ hx hn => (smk_owes hs hL fwd lo hi hx hn).1,
+   fun hL _ _ hx ho hk hm => snext_no_skip hs hL hx ho hk hm,
+   fun fwd lo hi => keep_mono hs fwd lo hi⟩
+
+/-- "A key inserted during the iteration that lies beyond the next key the iterator yields, and is not removed
+again, is yielded too": if `x` is in the map when `Next` yields `y` and lies beyond `y`, the iterator owes `x` from
+then on, so by `iter_no_skip_of_persistent_keys` it is yielded before anything beyond it for as long as it stays. -/
+theorem iter_sees_inserted_beyond_next (cmp : K → K → Int) (hs : StrictWeak cmp) {L : List (K × V)} (hL : Sorted cmp L)
+    {it it' : SIter K} {x y : K × V} (hx : x ∈ L) (h : snext cmp L it = (it', some y))
+    (hb : dcmp cmp it.fwd y.1 x.1 < 0) : Owes cmp it' x.1 ∧ it'.fwd = it.fwd ∧ it'.stop = it.stop :=
+  snext_owes_beyond hs hL hx h hb
+
+/-- non-vacuity of the clause theorems: a forward iterator over `[(1,10),(3,30)]` from `Included 1`. After it
+yielded `1` it is parked on `3`: a key `2` inserted now (behind the parked key) is skipped — which the property
+allows —, a key `4` inserted beyond the next yield is yielded. -/
+example : let cmp : Int → Int → Int := fun a b => a - b
+    let it0 := smk cmp [((1 : Int), (10 : Int)), (3, 30)] true ⟨some .incl, 1⟩ ⟨some .unb, 0⟩
+    let it1 := (snext cmp [(1, 10), (3, 30)] it0).1
+    (snext cmp [(1, 10), (3, 30)] it0).2 = some (1, 10) ∧
+    (snext cmp [(1, 10), (2, 20), (3, 30), (4, 40)] it1).2 = some (3, 30) ∧
+    (snext cmp [(1, 10), (2, 20), (3, 30), (4, 40)] (snext cmp [(1, 10), (2, 20), (3, 30), (4, 40)] it1).1).2 = some (4, 40) := by
+  simp [smk, startOf, stopOf, snext, sraw, ahead, geS, aboveLo, seekFirstGreaterOrEqualStep]
 
 end Juniper.Props.C02
